@@ -508,6 +508,7 @@ func TestVerifC14(t *testing.T) {
 	}
 	res.Obs("request_classes", int64(len(classes)))
 	legacyEquivalence(res, root)
+	liveSessionAnswers(res, root)
 	concurrentLoad(res, root)
 	for _, m := range []string{"GET", "POST", "OPTIONS", "HEAD", "FOO"} {
 		found := false
@@ -535,8 +536,123 @@ func TestVerifC14(t *testing.T) {
 	}
 	res.RequireObs("health_probes", 5)
 	res.RequireObs("legacy_equivalence_pairs", 20)
+	res.RequireObs("live_session_sequences", 5)
 	res.RequireObs("concurrent_load_state_reads", 200)
 	res.RequireObs("concurrent_load_matches", 50)
+}
+
+// liveSessionAnswers: request sequences that refer to a session that is alive at
+// the broker - a proxy poll still pending, or matched with a client - which the
+// independent PRNG requests never do: the same well-formed /answer posted two or
+// three times for a pending (unmatched) poll, for a matched session whose client
+// is waiting, and after the session has ended. Every one of them must receive a
+// complete response (the 40 s per-request deadline is four times the protocol's
+// longest wait), the poll must end, and the broker must go on serving.
+func liveSessionAnswers(res *vlib.Result, root *vlib.Rand) {
+	b, err := startBroker("live-sessions")
+	if err != nil {
+		res.Inconcl("cannot start broker for the live-session sequences: " + err.Error())
+		return
+	}
+	defer b.stop()
+	n := vlib.Scale(6, 40)
+	var wg sync.WaitGroup
+	for i := 0; i < n; i++ {
+		wg.Add(1)
+		go func(i int) {
+			defer wg.Done()
+			r := root.SplitN("live", i)
+			variant := []string{"pending-poll", "matched-session", "ended-session"}[i%3]
+			sid := fmt.Sprintf("live-%d-%x", i, r.Uint64())
+			copies := r.Range(2, 3)
+			rec := map[string]interface{}{"case": fmt.Sprintf("live/%d", i), "variant": variant, "session_id": sid, "answers_posted": copies}
+			res.Eval(1)
+			pollBody, _ := json.Marshal(map[string]interface{}{"Sid": sid, "Version": "1.3", "Type": "standalone", "NAT": "unrestricted", "Clients": 0, "AcceptedRelayPattern": "snowflake.torproject.net$"})
+			pollDone := make(chan rawResp, 1)
+			go func() {
+				rs, _ := exchange(b.addr, []*rawReq{{Method: "POST", Target: "/proxy", body: pollBody}}, 40*time.Second)
+				if len(rs) == 1 {
+					pollDone <- rs[0]
+				} else {
+					pollDone <- rawResp{Err: "no connection"}
+				}
+			}()
+			time.Sleep(300 * time.Millisecond) // the poll is registered (a poll that is not yet there makes the answer a stray one: also fine)
+			var clientDone chan rawResp
+			if variant == "matched-session" {
+				clientDone = make(chan rawResp, 1)
+				go func() {
+					body := []byte("1.0\n" + fmt.Sprintf(`{"offer":"{\"type\":\"offer\",\"sdp\":\"LIVE-%d\"}","nat":"restricted"}`, i))
+					rs, _ := exchange(b.addr, []*rawReq{{Method: "POST", Target: "/client", body: body}}, 40*time.Second)
+					if len(rs) == 1 {
+						clientDone <- rs[0]
+					} else {
+						clientDone <- rawResp{Err: "no connection"}
+					}
+				}()
+				time.Sleep(300 * time.Millisecond)
+			}
+			if variant == "ended-session" {
+				<-pollDone // the idle poll has timed out
+				pollDone <- rawResp{Status: 200}
+			}
+			ans := []byte(`{"Version":"1.3","Sid":"` + sid + `","Answer":"{\"type\":\"answer\",\"sdp\":\"LIVE-ANSWER\"}"}`)
+			var reqs []*rawReq
+			for k := 0; k < copies; k++ {
+				reqs = append(reqs, &rawReq{Method: "POST", Target: "/answer", body: ans})
+			}
+			sameConn := r.Bool()
+			var resps []rawResp
+			if sameConn {
+				resps, _ = exchange(b.addr, reqs, 40*time.Second)
+			} else {
+				for _, rq := range reqs {
+					rs, _ := exchange(b.addr, []*rawReq{rq}, 40*time.Second)
+					resps = append(resps, rs...)
+				}
+			}
+			rec["answers_on_one_connection"] = sameConn
+			rec["answer_responses"] = resps
+			res.Obs("live_session_sequences", 1)
+			res.Obs("live_session_sequences_"+variant, 1)
+			if len(resps) < copies {
+				res.Violate("c14:no-well-formed-response:/answer_repeated_for_live_session:"+variant, fmt.Sprintf("%d identical /answer requests for session %s (%s): only %d responses", copies, sid, variant, len(resps)), rec)
+				return
+			}
+			for k, rp := range resps {
+				if rp.Err != "" {
+					res.Violate("c14:no-well-formed-response:/answer_repeated_for_live_session:"+variant, fmt.Sprintf("/answer #%d of %d for session %s (%s) got: %s", k+1, copies, sid, variant, rp.Err), rec)
+					return
+				}
+			}
+			pr := <-pollDone
+			if pr.Err != "" {
+				res.Violate("c14:no-well-formed-response:/proxy_live_session:"+variant, fmt.Sprintf("the poll of session %s (%s) got: %s", sid, variant, pr.Err), rec)
+				return
+			}
+			if clientDone != nil {
+				if cr := <-clientDone; cr.Err != "" {
+					res.Violate("c14:no-well-formed-response:/client_live_session:"+variant, fmt.Sprintf("the client of session %s got: %s", sid, cr.Err), rec)
+					return
+				}
+			}
+			res.Distinct(fmt.Sprintf("live/%d", i))
+			if i < 3 {
+				res.Sample(5, rec)
+			}
+		}(i)
+	}
+	wg.Wait()
+	if !b.alive() {
+		res.Violate("c14:broker-process-died", "the broker process exited during the live-session sequences", map[string]interface{}{"case": "live", "stderr_panics": b.panicLines()})
+		return
+	}
+	if msg := healthProbe(b.addr, "after-live-sessions"); msg != "" {
+		res.Violate("c14:later-requests-mishandled", "after the live-session sequences: "+msg, map[string]interface{}{"case": "live"})
+	}
+	if pl := b.panicLines(); len(pl) > 0 {
+		res.Violate("c14:handler-panic", fmt.Sprintf("%d 'http: panic serving' lines on the broker's stderr during the live-session sequences, e.g. %s", len(pl), pl[0]), map[string]interface{}{"case": "live"})
+	}
 }
 
 // concurrentLoad: well-formed requests only, but all at once: hundreds of idle
